@@ -311,7 +311,6 @@ def sub_verbs(ctx):
                 if str(ja["t"]) != v:
                     if not ctx.guard(ctx.fail, {"verb": flags, "v": v}, "%r must leave the non-numeric value %r unchanged, got %r" % (flags, v, ja["t"])):
                         return
-                continue
             if "--millis" in flags:
                 continue
             if la != lb:
@@ -319,11 +318,62 @@ def sub_verbs(ctx):
                     return
 
 
+def sub_as_is(ctx):
+    """Every time function whose help text says "Leaves non-numbers as-is", in each of its arities, on non-numeric first arguments."""
+    import re
+    helptext = ctx.mlr(["help", "usage-functions-by-class"]).out.decode()
+    funcs = re.findall(r"(?m)^(\S+)  \(class=time #args=([0-9,]+)\) [^\n]*Leaves non-numbers as-is", helptext)
+    if len(funcs) < 6:
+        raise RuntimeError("expected at least 6 time functions documented to leave non-numbers as-is, found %r" % (funcs,))
+    vals = ["abc", "", "1.2.3", "0xZZ", "2023-01-01", "-", "1 2", "t\u00e9"]
+    exprs = []
+    for name, ar in funcs:
+        for n in [int(x) for x in ar.split(",")]:
+            local = "local" in name
+            date = "date" in name
+            for v in vals:
+                if n == 1:
+                    args = ["$v"]
+                elif n == 2:
+                    args = ["$v", '"Asia/Tokyo"' if (local and date) or (local and False) else ("3" if not date else '"Asia/Tokyo"')]
+                    if local and not date:
+                        # sec2localtime(t, zone) and sec2localtime(t, n, zone) exist; the 2-argument form takes the zone
+                        args = ["$v", '"Asia/Tokyo"']
+                else:
+                    args = ["$v", "3", '"Asia/Tokyo"']
+                exprs.append((name, n, v, "%s(%s)" % (name, ", ".join(args))))
+    recs = "".join(json.dumps({"v": v}) + "\n" for _, _, v, _ in exprs)
+    # one record per expression: evaluate expression i on record i
+    prog = "".join('NR == %d {$o = %s}\n' % (i + 1, e) for i, (_, _, _, e) in enumerate(exprs))
+    import os
+    from vlib import run as vrun
+    d = vrun.newdir("a")
+    path = os.path.join(d, "p.mlr")
+    with open(path, "w") as f:
+        f.write(prog)
+    res = ctx.mlr(["--ijsonl", "--ojsonl", "put", "-f", path], stdin=recs.encode(), tz="America/Sao_Paulo")
+    lines = res.out.decode().splitlines()
+    if res.rc != 0 or len(lines) != len(exprs):
+        ctx.fail({"as_is": "batch"}, "batch failed rc=%s: %s" % (res.rc, res.err[:300]))
+    for (name, n, v, e), ln in zip(exprs, lines):
+        ctx.case(("as-is", name, n, v), True, labels=("as-is:%s/%d" % (name, n),), sample={"expression": e, "v": v} if len(ctx.samples) < 3 else None)
+        try:
+            o = json.loads(ln.replace("(error)", '"(error)"')).get("o", "<absent>")
+        except ValueError:
+            o = ln
+        if o != v:
+            if not ctx.guard(ctx.fail, {"as_is": e, "v": v}, "%s with $v = %r gives %r; its help text says \"Leaves non-numbers as-is\"" % (e, v, o)):
+                if len(ctx.violations) >= 5:
+                    return
+
+
 SUBCHECKS = [
     Sub("format_and_parse_rows", sub_fmt, body_fmt, shards={"quick": 8, "thorough": 16}, cost=3, rule="~33 time functions per generated instant vs datetime/zoneinfo; round trips"),
     Sub("relative_times", sub_dhms, None, shards={"quick": 1, "thorough": 1}, exhaustive=True, rule="sec2dhms/sec2hms layouts and all four inverse pairs on ~1200 integers incl. negatives and +0.25 floats"),
     Sub("zone_selection", sub_zone, body_zone, shards={"quick": 3, "thorough": 4}, rule="--tz / TZ / ENV[TZ] select the zone of *_local functions and leave GMT functions and explicit-zone calls unchanged"),
-    Sub("verbs_equal_functions", sub_verbs, None, shards={"quick": 1, "thorough": 1}, exhaustive=True, rule="sec2gmt [-1..-9] / sec2gmtdate verbs == functions per field; non-numeric values unchanged"),
+    Sub("verbs_equal_functions", sub_verbs, None, shards={"quick": 1, "thorough": 1}, exhaustive=True, rule="sec2gmt [-1..-9] / sec2gmtdate verbs == functions per field, on numeric and non-numeric values; non-numeric values unchanged"),
+    Sub("non_numbers_left_as_is", sub_as_is, None, shards={"quick": 1, "thorough": 1}, exhaustive=True,
+        rule="every time function whose help text says 'Leaves non-numbers as-is' (list read from the binary), in each arity, returns a non-numeric first argument unchanged"),
 ]
 
 KNOWN = {}
